@@ -224,13 +224,16 @@ func PopulateStructFields(m map[string]any, data any) {
 	}
 
 	// Fields are also reachable by their Go names, which Lookup tries before JSON tags;
-	// a Go name therefore wins over another field's tag of the same spelling
-	for i := range rt.NumField() {
-		f := rt.Field(i)
+	// a Go name therefore wins over another field's tag of the same spelling.
+	// This includes fields promoted from embedded structs, which Lookup finds by name as well.
+	for _, f := range reflect.VisibleFields(rt) {
 		if !f.IsExported() {
 			continue
 		}
-		fv := rv.Field(i)
+		fv, err := rv.FieldByIndexErr(f.Index)
+		if err != nil {
+			continue // promoted through a nil embedded pointer
+		}
 		fieldValue := fv.Interface()
 		if fv.Kind() == reflect.Struct || (fv.Kind() == reflect.Ptr && fv.Type().Elem().Kind() == reflect.Struct) {
 			fieldValue = StructToMap(fieldValue)
